@@ -256,6 +256,23 @@ def instrumented_runner_class(mp, run):
     def put(self, v):
         self.__dict__["_thread_counter"] = v
 
+    def field(name):
+        """The shared fields are written and read under `_variable_lock` on HEAD.  An access by a thread that does not
+        hold that lock is made a yield point ("read_field"/"write_field", name): the scheduler can pre-empt a thread
+        between two unsynchronised accesses.  HEAD performs none, so its schedules are unchanged."""
+
+        def fget(self):
+            if ctl.running and not ctl.abort and self.__dict__.get("_verif_ready") and getattr(self.__dict__.get("_variable_lock"), "owner", ctl.current) != ctl.current:
+                ctl.yield_op(("read_field", name))
+            return self.__dict__[name]
+
+        def fput(self, v):
+            if ctl.running and not ctl.abort and self.__dict__.get("_verif_ready") and getattr(self.__dict__.get("_variable_lock"), "owner", ctl.current) != ctl.current:
+                ctl.yield_op(("write_field", name))
+            self.__dict__[name] = v
+
+        return property(fget, fput)
+
     real_lock_types = (type(threading.Lock()), type(threading.RLock()))
 
     def init(self, *a, **k):
@@ -268,6 +285,7 @@ def instrumented_runner_class(mp, run):
                 self.__dict__[name] = run.foreign.setdefault(id(val), coop.CoopLock(ctl=ctl))
             elif isinstance(val, threading.Condition):
                 self.__dict__[name] = run.foreign.setdefault(id(val), coop.CoopCondition(ctl=ctl))
+        self.__dict__["_verif_ready"] = True
         run.register_runner(self)
 
     def spy(self, pubs):
@@ -284,7 +302,10 @@ def instrumented_runner_class(mp, run):
             run._record_ok(i, out, run.runners.index(self) if self in run.runners else 0)
         return out
 
-    return type("Instrumented" + orig.__name__, (orig,), {"_thread_counter": property(get, put), "__init__": init, "run": spy})
+    members = {"_thread_counter": property(get, put), "__init__": init, "run": spy}
+    for fname in ("_result", "_exception", "_batched_pubs", "_batch_length", "_entry_counter"):
+        members[fname] = field(fname)
+    return type("Instrumented" + orig.__name__, (orig,), members)
 
 
 class _NoLock:
@@ -804,13 +825,16 @@ def oracle(run: Run, faults_injected=None):
         # members still waiting for the result); a hang with clean shared state is a C08 matter whatever failed earlier
         f = run.final_fields
         dirty = bool(failed) and (f["exception_set"] or any(o is not None for o in f["owners"].values()) or bool(f["waiters"]["I"]))
-        prop = "C09" if dirty else "C08"
-        v.append((prop, "hang-after-failure" if dirty else "deadlock",
-                  f"no thread can take a step but calls are unfinished: pending {run.pending_at_end}, lock owners {run.final_fields['owners']}, wait sets {run.final_fields['waiters']}"))
+        msg = f"no thread can take a step but calls are unfinished: pending {run.pending_at_end}, lock owners {run.final_fields['owners']}, wait sets {run.final_fields['waiters']}"
+        v.append(("C08", "deadlock", msg))  # a caller blocks for ever: C08's, whatever led to it
+        if dirty:
+            v.append(("C09", "hang-after-failure", msg))
     if run.status == "livelock":
         f = run.final_fields
         dirty = bool(failed) and (f["exception_set"] or bool(f["waiters"]["I"]))
-        v.append(("C09" if dirty else "C08", "livelock",
+        if dirty:
+            v.append(("C09", "livelock-after-failure", f"after a failed batch the run cycles for ever (period {getattr(run, 'cycle', '?')}): pending {run.pending_at_end}, wait sets {f['waiters']}, exception still stored: {f['exception_set']}"))
+        v.append(("C08", "livelock",
                   f"under the round-robin tail (every enabled thread scheduled in turn) the whole state repeats every {getattr(run, 'cycle', '?')} steps while calls are unfinished: "
                   f"pending {run.pending_at_end}, lock owners {f['owners']}, wait sets {f['waiters']}"))
     if run.status in ("deadlock", "livelock"):
@@ -824,7 +848,9 @@ def oracle(run: Run, faults_injected=None):
                                                            f"({run.status}: pending {run.pending_at_end}, wait sets {run.final_fields['waiters']})"))
                     break
     if run.status == "limit":
-        v.append(("C09" if failed else "C08", "step-limit", f"run did not finish within {len(run.schedule)} steps under a fair random schedule"))
+        v.append(("C08", "step-limit", f"run did not finish within {len(run.schedule)} steps under a fair random schedule"))
+        if failed:
+            v.append(("C09", "step-limit", f"after a failed batch the run did not finish within {len(run.schedule)} steps under a fair random schedule"))
     # ---- C06: every pub handed to the primitive at most once (exactly once at completion)
     seen = [t for inv in fake.invocations for t in inv]
     submitted = [t for th in calls for c in th for t in c]
@@ -1214,12 +1240,12 @@ def mutex_model_traces(cases):
 
 
 # ----------------------------------------------------------------------------- the checks C06–C09
-FAULTS = {"C06": True, "C07": True, "C08": False, "C09": True}  # C06: "handed exactly once" must survive failing batches
-P_FAIL = {"C06": 0.15, "C07": 0.25, "C08": 0.0, "C09": 0.3}  # C07: failing batches with several members must not let the members at the primitive
+FAULTS = {"C06": True, "C07": True, "C08": True, "C09": True}  # C06: "handed exactly once" must survive failing batches
+P_FAIL = {"C06": 0.15, "C07": 0.25, "C08": 0.15, "C09": 0.3}  # C07: failing batches with several members must not let the members at the primitive
 RULES = {
     "C06": "schedules of the real BatchingMutexPrimitiveJobRunner.run under the cooperative scheduler, some invocations fail (the pubs of a failed batch count as handed once): ",
     "C07": "as C06 (including failing batches with several members) plus MutexSampler/MutexEstimator on freshly constructed wrappers, the solver constructor on bare and pre-wrapped primitives, free-running black-box runs: ",
-    "C08": "schedules without primitive failure, emphasis on pre-emption (one thread frozen at each kind of synchronisation operation while the others run) and early/late timeouts: ",
+    "C08": "schedules with and without failing invocations (a primitive that raises has returned), emphasis on pre-emption (one thread frozen at each kind of synchronisation operation while the others run) and early/late timeouts: ",
     "C09": "schedules in which the controller lets primitive invocations fail (first / later / consecutive / random): ",
 }
 
